@@ -589,7 +589,11 @@ def random_scenario(rng, cls=None, quickness=1, **force):
     if storage is None and imputer in ("joint", "product", "custom"):
         storage = ("geometric", 3)
     nlab = rng.choice([1, 1, 2, 3])
-    length = rng.choice([3, 6, 12]) if quickness else rng.choice([6, 20, 60])
+    # mostly short streams, some long ones (late manifestations: wrapped storages, counters crossing thresholds)
+    length = rng.choice([3, 6, 12, 12, 50]) if quickness else rng.choice([6, 20, 60, 150])
+    if length >= 50:
+        d = min(d, 3)
+        n_inner = min(n_inner, 2)
     stream = []
     for i in range(length):
         xs = [F(rng.randrange(-3, 4), rng.choice([1, 1, 2])) for _ in range(d)]
